@@ -104,13 +104,34 @@ func (f *frame) call(t *ssa.Call) {
 			x.S.Assert(IntLe(f.cur.heap.next, nx))
 			f.cur.heap = x.H.WithNext(after, nx)
 			f.reassumeTypeInvs(args)
-			f.setFreshResult(t)
+			res := f.setFreshResult(t)
+			if len(fc.Assumes) > 0 {
+				post := x.calleeCtx(callee, fc, args, f.cur.heap, pre.Heap)
+				var rvals []Val
+				if tp, ok := t.Type().(*types.Tuple); ok {
+					for i := 0; i < tp.Len(); i++ {
+						lo, hi := tupleRange(tp, i)
+						rvals = append(rvals, Val{T: res.T[lo:hi], Typ: tp.At(i).Type()})
+					}
+				} else {
+					rvals = []Val{res}
+				}
+				bindResults(post, fc, callee.Signature, rvals)
+				for _, e := range fc.Assumes {
+					g, err := post.EvalBool(e.Expr)
+					if err != nil {
+						abort("assume of %s (%s): %v", callee.Name(), e.Text, err)
+					}
+					x.note("ASSUMED (not proved) about %s: %s", funcDisplayName(callee), e.Text)
+					f.assume(g)
+				}
+			}
 			return
 		}
 		f.havocCall(t, "callee declared opaque: "+funcDisplayName(callee), args, true)
 		return
 	}
-	if fc != nil && !fc.Inline {
+	if fc != nil && !fc.Inline && !(x.fc != nil && x.fc.InlineCallees[callee.Name()]) {
 		f.callByContract(t, callee, fc, args)
 		return
 	}
